@@ -363,7 +363,7 @@ func (t *taintState) upper(v ssa.Value, at ssa.Instruction, depth int) bool {
 // checkTaintedBounds emits one obligation per sink whose operand is tainted.
 func checkTaintedBounds(p *Prog, r *Report, entries []*ssa.Function) {
 	rule := "C08/TAINTED-BOUNDS"
-	r.Rule(rule, "every integer read from the wire (Conn.ReadByte/ReadInt32/ReadInt64, binary.Read into a local; propagated through conversions, arithmetic, min/max, phis, locals, parameters and results) that reaches a slice/array/string index, a slice bound or a make length is bounded by dominating comparisons: below (>=0) and, for indices and slice bounds, above", 10)
+	r.Rule(rule, "every integer read from the wire (Conn.ReadByte/ReadInt32/ReadInt64, binary.Read into a local; propagated through conversions, arithmetic, min/max, phis, locals, parameters and results) that reaches a slice/array/string index, a slice bound or a make length is bounded by dominating comparisons: below (>=0) and, for indices and slice bounds, above", 6)
 	g := p.ModGraph()
 	reach := g.Reach(entries, nil)
 	var funcs []*ssa.Function
